@@ -1,5 +1,6 @@
 import ComposeVerif.Model.Paths
 import ComposeVerif.Model.PathsSymlink
+import ComposeVerif.Model.PathsLoaders
 /-!
 # C12 — statements the tree falsified before the round-2 repairs (concrete witnesses, `by decide`)
 
@@ -111,5 +112,30 @@ theorem repaired_cwd_symlink :
     (watchStr (Sym.resolveStr (Sym.ofTable [])) ⟨['b'], H, fun _ => false, some⟩ ['x']).bind
         (watchStr (Sym.resolveStr (Sym.ofTable [])) ⟨W, H, fun _ => false, some⟩)
       = watchStr (Sym.resolveStr (Sym.ofTable [])) ⟨join W ['b'], H, fun _ => false, some⟩ ['x'] := by decide
+
+/-! ## round 6 — a `RemoteResourceLoaders` that returns a sub-slice of its argument (seed C12-7)
+
+`Loaders.child_keeps_every_slice` / `siblings_independent` hold because `RemoteResourceLoaders` builds a fresh list.
+With the "no need to copy" variant (`remoteLoadersSub`: the slice without its trailing local loader) the child's
+`append` finds capacity in the PARENT's array and overwrites the parent's local loader: options `[remote 1, local /w]`,
+one nested load for `/w/a` — the parent now reads `[remote 1, local /w/a]`, and the next include entry is looked up
+from `/w/a`.  Replayed on the real code by `c12.multi` / `c12.loaders` (on the unchanged tree the observation holds). -/
+open Loaders in
+theorem subslice_child_clobbers_parent :
+    let m := alloc Heap.empty [some (.remote 1)] 0
+    let o := toOptions m.1 m.2 ['/', 'w']
+    let c := childLoadersSub o.1 o.2 ['/', 'w', '/', 'a']
+    read o.1 o.2 = [some (.remote 1), some (.loc ['/', 'w'])] ∧
+    read c.1 o.2 = [some (.remote 1), some (.loc ['/', 'w', '/', 'a'])] ∧
+    localDir (read c.1 o.2) ≠ localDir (read o.1 o.2) := by decide
+
+open Loaders in
+/-- the same inputs with the real `RemoteResourceLoaders`: the parent is left alone -/
+theorem fresh_child_keeps_parent :
+    let m := alloc Heap.empty [some (.remote 1)] 0
+    let o := toOptions m.1 m.2 ['/', 'w']
+    let c := childLoaders o.1 o.2 ['/', 'w', '/', 'a']
+    read c.1 o.2 = [some (.remote 1), some (.loc ['/', 'w'])] ∧
+    read c.1 c.2 = [some (.remote 1), some (.loc ['/', 'w', '/', 'a'])] := by decide
 
 end CV.Paths.Neg
